@@ -9,6 +9,8 @@
     * `obj[idx]` is the cyclic linear interpolation at `idx`; `len(obj)` is the table length;
     * operators need equal `cycles` and equal table lengths and act element by element;
       `harmonize` yields as many items as the table has.
+    * a failing operation changes nothing: in particular `tl.table = <something without len()>`
+      raises TypeError and leaves the object as it was.
   Attribute assignments, in-place list changes and allocation are data-structure operations and
   are taken from the model (`step`).  No cached length appears here.
 -/
@@ -41,13 +43,17 @@ def specStep (denOf : α → α) (h : Heap α) : HOp α → Heap α × Obs α
           let ys := oscSpec xs o.den o.freq o.phase o.pos k
           ({ h with oscs := h.oscs.set s { o with pos := o.pos + ys.length, dead := false } },
            .samples ys (if ys.length < k then "stop" else "fuel"))
+  | .setTableUnsized i =>
+    match h.objs[i]? with
+    | some _ => (h, .err "TypeError")
+    | none => (h, .err "BadRef")
   | .getitem i idx =>
     match h.obj? i with
-    | none => (h, .err "BadRef")
+    | none => (h, .err (h.whyNot i))
     | some (_, t) => (h, .val (interpCyc t idx))
   | .len i =>
     match h.obj? i with
-    | none => (h, .err "BadRef")
+    | none => (h, .err (h.whyNot i))
     | some (_, t) => (h, .nat t.length)
   | .binary op i j =>
     match h.obj? i, h.obj? j with
@@ -55,10 +61,11 @@ def specStep (denOf : α → α) (h : Heap α) : HOp α → Heap α × Obs α
       if o1.cycles ≠ o2.cycles then (h, .err "ValueError")
       else if t1.length ≠ t2.length then (h, .err "ValueError")
       else h.alloc (List.zipWith op.app t1 t2) o1.cycles
-    | _, _ => (h, .err "BadRef")
+    | none, _ => (h, .err (h.whyNot i))
+    | _, none => (h, .err (h.whyNot j))
   | .harmonize i harm =>
     match h.obj? i with
-    | none => (h, .err "BadRef")
+    | none => (h, .err (h.whyNot i))
     | some (o, t) => h.alloc (tblHarmonize t harm) o.cycles
   | op => step denOf h op
 
